@@ -68,7 +68,8 @@ def exc_matches(cls, handler_names):
 # ---------------------------------------------------------------------------------------------- contracts
 
 class Loop:
-    def __init__(self, inv=(), frame=(), decreases=None, summary=None):
+    def __init__(self, inv=(), frame=(), decreases=None, summary=None, assume=()):
+        self.assume = list(assume)      # [(name, fn(View))]: preconditions on the arbitrary element of an abstract collection
         self.inv = list(inv)            # [(name, fn(View) -> z3 Bool)]
         self.frame = list(frame)        # heap path patterns / 'loc:<name>' / '$name' locals the body may write
         self.decreases = decreases      # fn(View) -> z3 Int (optional)
@@ -279,7 +280,12 @@ class Engine:
         n = sum(1 for o in self.obligations if o[0] == name or o[0].startswith(name + '@'))
         if n:
             name = '%s@%d' % (name, n)
-        self.obligations.append((name, list(st.pc), goal, meta or {}))
+        meta = dict(meta or {})
+        if '_new' not in meta and getattr(self, 'old', None) is not None:
+            # views for known-finding witnesses on call-site / store obligations: the state at the obligation
+            meta['_new'] = View(st.copy(), self)
+            meta['_old'] = meta['_new']
+        self.obligations.append((name, list(st.pc), goal, meta))
 
     def feasible(self, st, cond=None):
         s = z3.Solver()
@@ -771,6 +777,17 @@ class Engine:
                 if anyn:
                     nans = z3.If(g, c.nans if c.nans is not None else z3.K(I, z3.BoolVal(False)), nans)
             return SeqC(arr, n, nans)
+        if all(isinstance(c, Arr2C) for c in cs):
+            def f(i, j, cs=cs, guards=guards):
+                out = cs[-1].at(i, j)
+                for g, c in zip(reversed(guards[:-1]), reversed(cs[:-1])):
+                    out = z3.If(g, c.at(i, j), out)
+                return out
+            n0, n1 = cs[-1].n0, cs[-1].n1
+            for g, c in zip(reversed(guards[:-1]), reversed(cs[:-1])):
+                n0 = z3.If(g, c.n0, n0) if not (c.n0 is n0 or c.n0.eq(n0)) else n0
+                n1 = z3.If(g, c.n1, n1) if not (c.n1 is n1 or c.n1.eq(n1)) else n1
+            return Arr2C(f, n0, n1)
         if all(isinstance(c, MapC) for c in cs):
             dom, val, n = cs[-1].dom, cs[-1].val, cs[-1].n
             for g, c in zip(reversed(guards[:-1]), reversed(cs[:-1])):
@@ -1030,7 +1047,8 @@ class Engine:
             st.assume(n >= 0)
             return MapC(fresh(name + '.dom', c.dom.sort()), fresh(name + '.val', c.val.sort()), n)
         if isinstance(c, ListC):
-            if all(isinstance(x, (int, float, NR)) and not isinstance(x, bool) for x in c.items):
+            if all((isinstance(x, (int, float, NR)) and not isinstance(x, bool)) or (z3.is_expr(x) and z3.is_arith(x))
+                   for x in c.items):
                 # a python list of numbers that is grown inside a loop: symbolic length from here on
                 n = fresh(name + '.len', I)
                 st.assume(n >= 0)
@@ -1228,6 +1246,8 @@ class Engine:
             saved = head.writes
             head.writes = set()
             pre_body(head)
+            for name, fn in getattr(spec, 'assume', ()):
+                head.assume(zb(fn(View(head, self))))
             for s, kind, payload in self.block(n.body, head):
                 written = s.writes
                 self.check_loop_frame({w for w in written if not w.startswith('$')} | set(), frame, lid, allowed_locs, head_locs)
@@ -1405,8 +1425,15 @@ class Engine:
                 return ('row', to_z3(self.ev(a, st)))
             if full(a) and not isinstance(b, ast.Slice):
                 return ('col', to_z3(self.ev(b, st)))
+            if isinstance(a, ast.Slice) and not isinstance(b, ast.Slice) and a.step is None:
+                lo = z3.IntVal(0) if a.lower is None else to_z3(self.ev(a.lower, st))
+                hi = c.n0 if a.upper is None else to_z3(self.ev(a.upper, st))
+                return ('colrange', lo, hi, to_z3(self.ev(b, st)))
             if not isinstance(a, ast.Slice) and not isinstance(b, ast.Slice):
-                return ('elem', to_z3(self.ev(a, st)), to_z3(self.ev(b, st)))
+                av = self.ev(a, st)
+                if isinstance(av, Ref) and isinstance(st.content(av), (ArrC, SeqC)):
+                    return ('colrows', av, to_z3(self.ev(b, st)))
+                return ('elem', to_z3(av), to_z3(self.ev(b, st)))
         raise Unsupported('2-D subscript %s' % ast.unparse(sl))
 
     def load_sub(self, base, sl, st):
@@ -1521,7 +1548,14 @@ class Engine:
                 return base[lo:hi]
         h = self.c.calls.get('__getitem__')
         if h is not None:
-            return h(self, st, [base, sl], {}, None)
+            r = h(self, st, [base, sl], {}, None)
+            if r is not NotImplemented:
+                return r
+        if isinstance(base, Obj):
+            # record-like object: field k lives at <path>.f<k>
+            k = self.ev(sl, st)
+            if isinstance(k, int):
+                return st.load(base.path + '.f%d' % k)
         raise Unsupported('subscript load on %r' % (base,))
 
     def store_sub(self, base, sl, value, st):
@@ -1536,6 +1570,19 @@ class Engine:
                 f = lambda i, j, c=c, k=k: z3.If(i == k[1], val_at(j), c.at(i, j))  # noqa
             elif k[0] == 'col':
                 f = lambda i, j, c=c, k=k: z3.If(j == k[1], val_at(i), c.at(i, j))  # noqa
+            elif k[0] == 'colrange':
+                f = lambda i, j, c=c, k=k: z3.If(z3.And(j == k[3], i >= k[1], i < k[2]), val_at(i - k[1]), c.at(i, j))  # noqa
+            elif k[0] == 'colrows':
+                # numpy fancy-index store  A[rows, col] = v : sequential stores, the last one to a row wins
+                ic = st.content(k[1])
+                ix = (lambda q: z3.ToInt(ic.vals[q])) if isinstance(ic, ArrC) else (lambda q: ic.arr[q] if z3.is_int(ic.arr[q]) else z3.ToInt(ic.arr[q]))
+                F = z3.Function('scatter!%d' % len(self.obligations), I, I, R)
+                q, q2, i_, j_ = fresh('q', I), fresh('q2', I), fresh('i', I), fresh('j', I)
+                last = z3.Not(z3.Exists([q2], z3.And(q2 > q, q2 < ic.n, ix(q2) == ix(q))))
+                st.assume(z3.ForAll([q], z3.Implies(z3.And(q >= 0, q < ic.n, last), F(ix(q), k[2]) == val_at(q))))
+                st.assume(z3.ForAll([i_, j_], z3.Implies(z3.Or(j_ != k[2], z3.Not(z3.Exists([q], z3.And(q >= 0, q < ic.n, ix(q) == i_)))),
+                                                          F(i_, j_) == c.at(i_, j_))))
+                f = lambda i, j, F=F: F(i, j)  # noqa
             else:
                 f = lambda i, j, c=c, k=k: z3.If(z3.And(i == k[1], j == k[2]), as_real(value).val, c.at(i, j))  # noqa
             st.set_content(base, Arr2C(f, c.n0, c.n1))
@@ -2084,7 +2131,9 @@ class Engine:
                 else:
                     r = z3.And(z3.Not(ma.isnone), zb(self.compare(ast.Eq(), ma.value, mb, st)))
                 return r if isinstance(op, ast.Eq) else z3.Not(r)
-            raise Unsupported('ordering of optional value')
+            # ordering: only reached on paths where the value was established to be a number
+            a = a.value if isinstance(a, MaybeNone) else a
+            b = b.value if isinstance(b, MaybeNone) else b
         if a is None or b is None:
             if isinstance(op, ast.Eq):
                 return self.is_(a, b)
@@ -2176,6 +2225,13 @@ class Engine:
                 return zor(*[zb(self.compare(ast.Eq(), item, x, st)) for x in c.items])
             if isinstance(c, MapC):
                 return c.dom[to_z3(item)]
+            if isinstance(c, SeqC):
+                k = fresh('k', I)
+                it = to_z3(item)
+                el = c.arr[k]
+                if z3.is_real(el) and z3.is_int(it):
+                    it = z3.ToReal(it)
+                return z3.Exists([k], z3.And(k >= 0, k < c.n, el == it))
         if isinstance(container, str) and isinstance(item, str):
             return item in container
         h = self.c.calls.get('__contains__')
